@@ -44,6 +44,7 @@ fn baseline(fam: Fam, b: &[u8]) -> Result<(R0, usize), String> {
 pub fn c05_run(c: &mut Ctx, fam: Fam, b: &[u8], base: &(R0, usize), sched: &[Step], mode: PollMode) {
     c.eval();
     let f = fam.n();
+    crate::alloc::set_current(b, f, 6);
     let mut rd = ScriptedReader::new(b, sched);
     let budget = b.len() * 2 + sched.len() * 2 + 16;
     let run = match guard(|| drive_poll(fam, &mut rd, mode, budget)) {
